@@ -7,7 +7,7 @@
 
   What is modelled: everything that survives between calls or is shared between writers —
     * the process-global `precision.decimals` (interface.py:10-14), written by every constructor
-      (interface.py:56) and read by `float_to_str` while a tree is built (xml.py:62-74);
+      (interface.py:58) and read by `float_to_str` while a tree is built (xml.py:62-74);
     * per writer object: its constructor arguments and the children of `XMLFileWriter._root_node`;
     * the file system (path ↦ content), the default file names and the overwrite policy.
   What is a parameter (`Codec`): which nodes / bytes a scenario, a planning-problem set and the
@@ -57,10 +57,11 @@ structure Codec (Input Node Bytes : Type) where
 
 /-- Variant of the code. -/
 structure Sem where
-  /-- the XML root element is created in every write (now) / once in `__init__` (before) -/
+  /-- the XML root element is created in every write (now: xml.py:227, 269) / once in `__init__` only
+      (before: xml.py:153) -/
   freshRoot : Bool
-  /-- a write installs the writer's own `decimal_precision` for its duration (now) /
-      uses whatever `precision.decimals` holds (before) -/
+  /-- a write installs the writer's own `decimal_precision` for its duration and restores the global
+      afterwards (now: interface.py:57, 60-72, xml.py:229, 271) / uses whatever `precision.decimals` holds (before) -/
   ownPrec : Bool
   deriving DecidableEq, Repr
 
@@ -101,9 +102,9 @@ inductive Outcome (Bytes : Type) where
 section
 variable {Input Node Bytes : Type}
 
-/-- File name used: the given one, else `str(scenario_id) + suffix` (interface.py:143-144) —
+/-- File name used: the given one, else `str(scenario_id) + suffix` (interface.py:158-159) —
     except `XMLFileWriter.write_scenario_to_file`, which has its own copy of the path handling and
-    appends no suffix (xml.py, `if filename is None: filename = str(self.scenario.scenario_id)`). -/
+    appends no suffix (xml.py:252-253 `if filename is None: filename = str(self.scenario.scenario_id)`). -/
 def resolveName (c : Codec Input Node Bytes) (w : Writer Input Node) (kind : Kind) : Option String → String
   | some f => f
   | none =>
@@ -111,7 +112,7 @@ def resolveName (c : Codec Input Node Bytes) (w : Writer Input Node) (kind : Kin
     | .xml, .scenarioOnly => c.benchId w.inp
     | f, _ => c.benchId w.inp ++ suffix f
 
-/-- `overwrite == "n"` for an existing file (interface.py:146-156; same text in xml.py). -/
+/-- `overwrite == "n"` for an existing file (interface.py:161-174; same text in xml.py:255-267). -/
 def keepExisting : Mode → Bool → Bool
   | .ask, answerN => answerN
   | .skip, _ => true
@@ -160,7 +161,8 @@ def writeStep (sem : Sem) (c : Codec Input Node Bytes) (st : Proc Input Node Byt
 def step (sem : Sem) (c : Codec Input Node Bytes) (st : Proc Input Node Bytes) :
     Op Input → Proc Input Node Bytes × Outcome Bytes
   | .new fmt inp prec =>
-    -- interface.py:56 `precision.decimals = decimal_precision`; xml.py:153 root element / protobuf.py:95 message
+    -- interface.py:57-58 `self._decimal_precision = …; precision.decimals = decimal_precision`;
+    -- xml.py:153 root element / protobuf.py:95 message
     ({ st with gprec := prec, ws := st.ws ++ [⟨fmt, inp, prec, []⟩] }, .created st.ws.length)
   | .write i kind file mode answerN => writeStep sem c st i kind file mode answerN
 
